@@ -527,6 +527,18 @@ class SymBool:
     __index__ = _unm("__index__")
 
 
+# denominators of real-model divisions met on the current path (cleared by the
+# harness at path start).  z3's real division is total with x/0 unspecified, so a
+# model that sets a denominator to 0 says nothing about IEEE arithmetic: checks
+# that use the real model re-prove a refuted equality under "all denominators
+# are non-zero" and state that assumption (division by zero is outside the claim).
+REAL_DENOMS = []
+
+
+def nonzero_denominators():
+    return z3.And([d != 0 for d in REAL_DENOMS]) if REAL_DENOMS else z3.BoolVal(True)
+
+
 def int_truediv(a, b):
     """`/` on the integer model: uninterpreted, except for the identities
     pymbolic.flatten applies when statements are built (x/1 -> x, 0/x -> 0)."""
@@ -613,6 +625,8 @@ class SymNum:
     @staticmethod
     def _div(a, b):
         if a.sort() == REAL:
+            if not z3.is_rational_value(z3.simplify(b)) and len(REAL_DENOMS) < 200:
+                REAL_DENOMS.append(b)
             return a / b
         return int_truediv(a, b)
 
